@@ -35,7 +35,11 @@ def gen(rng):
             if nframes >= 12:
                 break
             r = rng.random()
-            if r < 0.35:
+            if r < 0.08:
+                # a large frame followed (usually) by more frames in the same burst
+                burst.append({"fin": 1, "op": 2, "hex": rng.randbytes(rng.choice((4097, 5000, 16384, 20000, 70000))).hex()})
+                nframes += 1
+            elif r < 0.35:
                 burst.append({"fin": 1, "op": 1, "hex": "".join(rng.choice(("61", "62", "c3a9", "e282ac", "20")) for _ in range(rng.randrange(0, 6)))})
                 nframes += 1
             elif r < 0.55:
